@@ -48,7 +48,7 @@ Qed.
 
 Section Modes.
   Variables (root : value) (ps : list path) (items : list value).
-  Hypothesis Hsel : find_positions PATH_FUEL root None ps = Ok items.
+  Hypothesis Hsel : find_positions root None ps = Ok items.
   Hypothesis Hnp : is_predicate ps = false.
 
   Lemma all_mode buf : select_t root ps MAll buf = Ok (buf ++ flat_map enc items, running_ends (lenN buf) items).
@@ -86,7 +86,7 @@ End Modes.
 
 Section Predicate.
   Variables (root : value) (e : expr) (items : list value).
-  Hypothesis Hsel : find_positions PATH_FUEL root None [PPredicate e] = Ok items.
+  Hypothesis Hsel : find_positions root None [PPredicate e] = Ok items.
   Definition pred_bool := match items with [] => false | _ => true end.
   (* for a predicate path every mode returns the single boolean that path_match reports; existence is true *)
   Lemma predicate_all_modes m buf : select_t root [PPredicate e] m buf = Ok (buf ++ enc (VBool pred_bool), []).
@@ -125,7 +125,7 @@ Definition shift_result (pre : list N) (r : res (list N * list N)) : res (list N
 (* what a selection appends does not depend on the buffer it is given, and offsets are positions in that buffer *)
 Lemma select_frame root ps m pre : select_t root ps m pre = shift_result pre (select_t root ps m []).
 Proof.
-  unfold select_t. destruct (find_positions PATH_FUEL root None ps) as [items| |]; cbn [bind shift_result]; try reflexivity.
+  unfold select_t. destruct (find_positions root None ps) as [items| |]; cbn [bind shift_result]; try reflexivity.
   destruct (is_predicate ps); [reflexivity|].
   destruct m; [| | |destruct (1 <? length items)%nat].
   - rewrite build_values_frame. destruct (build_values [] (firstn 1 items) []); reflexivity.
